@@ -76,11 +76,11 @@ ResDef == [t |-> "res", s |-> 0, v |-> 0, k |-> "func"]          \* the address 
 (*       struct); the name denotes the first item, i.e. the start of the whole block.    *)
 D(k, n) == [k |-> k, n |-> n]
 AllShapes == <<
-  (* 1 P *) <<D("e", "a"), D("f", "a"), D("i", "b")>>,
-  (* 2 Q *) <<D("i", "a"), D("f", "b"), D("e", "b"), D("s", "c"), D("e", "c")>>,
+  (* 1 P *) <<D("w", "a"), D("e", "a"), D("f", "a"), D("i", "b")>>,                       \* forward, export, definition
+  (* 2 Q *) <<D("i", "a"), D("e", "b"), D("f", "b"), D("s", "c"), D("e", "c")>>,          \* export, definition; definition, export
   (* 3 R *) <<D("w", "a"), D("i", "c"), D("f", "a")>>,
   (* 4 T *) <<D("f", "c"), D("e", "c"), D("i", "a"), D("i", "b"), D("i", "a")>>,
-  (* 5 U *) <<D("d", "a"), D("e", "a"), D("w", "b"), D("s", "b"), D("e", "b")>>,
+  (* 5 U *) <<D("d", "a"), D("e", "a"), D("e", "b"), D("w", "b"), D("s", "b")>>,          \* export, forward, definition
   (* 6   *) <<D("i", "a"), D("f", "a")>>,                    \* import then definition: import_export
   (* 7   *) <<D("f", "b"), D("e", "b"), D("i", "b")>>,       \* import of a local definition: import_export
   (* 8   *) <<D("e", "c"), D("i", "c")>>,                    \* import of an exported name: import_export
